@@ -237,6 +237,22 @@ def check(ctx: Ctx) -> str:
         calls_ = {astq.callee(c) for c in astq.calls(v_)}
         ok_ti = ctr in reads and reads <= {ctr, "self", "str"} and all(f == "str" or f.endswith(".format") for f in calls_)
     ctx.check(ok_ti, "temporary_identifier", "compiler:CodeGenerator.temporary_identifier", "counter based", "temporary identifiers must be numbered by a counter", ti.loc())
+    ctx.rule("R3", "a folded output constant is written into the source only when it has a stable text: in _output_child_to_const every return that converts the folded value lies under has_safe_repr(<that value>)")
+    oc = repo.func("compiler:CodeGenerator._output_child_to_const")
+    folded_ = [a for a in ast.walk(oc.node) if isinstance(a, ast.Assign) and isinstance(a.value, ast.Call) and astq.attr_tail(a.value) == "as_const" and isinstance(a.targets[0], ast.Name)]
+    ctx.need(len(folded_) == 1, "_output_child_to_const: the folded value (`x = node.as_const(...)`) was not found")
+    fv = folded_[0].targets[0].id  # type: ignore[attr-defined]
+    n_r = 0
+    for r_ in astq.returns(oc.node):
+        if r_.value is None or fv not in astq.names_in(r_.value):
+            continue
+        n_r += 1
+        at_ = astq.guard_atoms(oc.node, r_)
+        ctx.check((f"has_safe_repr({fv})", True) in at_, f"fold-text:{n_r}", "compiler:CodeGenerator._output_child_to_const", "folded value converted to text without has_safe_repr" if (f"has_safe_repr({fv})", True) not in at_ else "guarded by has_safe_repr",
+                  f"`{ast.unparse(r_)[:60]}` writes the text of any folded object into the generated source: for an object whose str() contains a memory address (`{{{{ 'abc'.upper }}}}`, `{{{{ 'abc'|batch(2) }}}}`) the source differs between compilations and between processes",
+                  oc.loc(r_))
+    ctx.floor("returns of the folded output value", n_r, 1)
+
     # output is a function of template and context only: no filter writes into a shared
     # policy / argument object, which would make a render depend on the renders before it
     # (rule owned by C29)
